@@ -75,6 +75,20 @@ func Register[C any](p Prop[C]) Prop[C] {
 }
 
 func safeRun[C any](run func(C) Verdict, c C) (v Verdict) {
+	start := time.Now()
+	defer func() {
+		// cases that take long are logged (a time budget is never a verdict, but the generator should know)
+		if d := time.Since(start); d > 3*time.Second {
+			raw, _ := json.Marshal(c)
+			if len(raw) > 3000 {
+				raw = append(raw[:3000], []byte("...")...)
+			}
+			if f, err := os.OpenFile(filepath.Join(outDir(), "slow-cases.log"), os.O_APPEND|os.O_CREATE|os.O_WRONLY, 0o644); err == nil {
+				fmt.Fprintf(f, "%v %T %s\n", d, c, raw)
+				f.Close()
+			}
+		}
+	}()
 	defer func() {
 		if r := recover(); r != nil {
 			v = Verdict{Fail: fmt.Sprintf("panic while deciding the case: %v\n%s", r, trimStack(debug.Stack()))}
